@@ -167,6 +167,9 @@ func c06Step(st, in, out interface{}) (bool, interface{}) {
 		}
 		return s.owner[i.Name] != -1, s
 	case "register":
+		if o.Skip {
+			return true, s
+		}
 		can := s.owner[i.Name] == -1 && s.named[i.Proc] == -1 && !s.dead[i.Proc]
 		if o.OK {
 			if !can {
@@ -213,6 +216,8 @@ func c06Step(st, in, out interface{}) (bool, interface{}) {
 	return true, s
 }
 
+type c06Ping int
+
 // recording wrapper around the real target manager
 type c06TM struct {
 	gen.TargetManager
@@ -249,7 +254,8 @@ func (c06) Run(e *simkit.Env, cc any) {
 		mu.Unlock()
 		e.Logf("c%d %s name=%d proc=%d -> ok=%v owner=%d unknown=%v skip=%v %s [%d,%d]", client, in.Op, in.Name, in.Proc, out.OK, out.Owner, out.Unknown, out.Skip, out.Err, call, ret)
 	}
-	var pendingTerm sync.Map // proc index -> call step of the first terminate op
+	pinged := map[int][]int{} // name index -> processes that received the audit ping sent to that name
+	var pendingTerm sync.Map  // proc index -> call step of the first terminate op
 	newProc := func() *proc {
 		p := &proc{termDone: make(chan struct{})}
 		mu.Lock()
@@ -285,6 +291,10 @@ func (c06) Run(e *simkit.Env, cc any) {
 						p.metaH = append(p.metaH, mh)
 					}
 				}
+			case c06Ping:
+				mu.Lock()
+				pinged[int(v)] = append(pinged[int(v)], p.id)
+				mu.Unlock()
 			case gen.PID:
 				// become a requester: link and monitor the given process
 				pp.LinkPID(v)
@@ -461,6 +471,25 @@ func (c06) Run(e *simkit.Env, cc any) {
 			}
 		}
 	}
+	// UnregisterName removes the name from the table and then clears the owner's own "I am
+	// registered" flag: a RegisterName on behalf of that very process issued in between is refused
+	// as 'taken' although the name no longer resolves. The property does not speak about this
+	// flag; such a refusal (and only it) carries no information for the registry model.
+	for i, a := range hist {
+		ai, ao := a.Input.(c06In), a.Output.(c06Out)
+		if ai.Op != "register" || ao.OK || ao.Err != gen.ErrTaken.Error() {
+			continue
+		}
+		for _, b := range hist {
+			bi, bo := b.Input.(c06In), b.Output.(c06Out)
+			if bi.Op == "unregister" && bo.OK && bo.Owner == ai.Proc && a.Call <= b.Return && b.Call <= a.Return {
+				ao.Skip = true
+				hist[i].Output = ao
+				e.Probe("register-refused-during-own-unregister")
+				break
+			}
+		}
+	}
 	// A registration on behalf of a process that turns out to be terminated holds the name
 	// for a moment before it is rolled back (competing claims are refused as 'taken', an
 	// UnregisterName can even take it away). Such an operation is judged under both readings:
@@ -595,6 +624,18 @@ func (c06) Run(e *simkit.Env, cc any) {
 			}
 		}
 		if owner != (gen.PID{}) {
+			// a live process holds the name: the name must resolve to that very process
+			perr := n.Send(names[ni], c06Ping(ni))
+			e.Settle(time.Second)
+			mu.Lock()
+			got := append([]int(nil), pinged[ni]...)
+			want := logical[owner]
+			mu.Unlock()
+			if perr != nil || len(got) != 1 || got[0] != want {
+				e.Fail("C06/name-does-not-resolve-to-owner", "at quiescence live process %d reports %s as its registered name, but a message sent to that name returned %v and was received by %v", want, names[ni], perr, got)
+				return
+			}
+			e.Probe("owner-resolution-audited")
 			continue
 		}
 		pid, err := n.SpawnRegister(names[ni], ProbeFactory(&Hooks{Name: "claimer"}), gen.ProcessOptions{})
